@@ -1,6 +1,6 @@
 SPECIFICATION DriftSpec
 CONSTANTS
-  NormBug = TRUE
+  NormBug = FALSE
   RootCheck = TRUE
 POSTCONDITION TraceDone
 CHECK_DEADLOCK FALSE
